@@ -39,6 +39,9 @@ op_st = st.one_of(
     # a plain requires() between two surgeries: what one job requires must not leak into
     # another job's requirements
     st.tuples(st.just('addreq'), st.integers(0, 40), st.integers(0, 40)),
+    # read-only queries between two surgeries (they make the scheduler compute its internal
+    # successor links, which the next surgery must not trust blindly); not judged here
+    st.tuples(st.just('query'), st.integers(0, 40)),
     st.tuples(st.just('keep'), st.integers(0, 4095), st.integers(0, 4)),
     st.tuples(st.just('between'), st.lists(st.integers(0, 40), max_size=3),
               st.lists(st.integers(0, 40), max_size=3), st.booleans(), st.booleans(),
@@ -134,6 +137,14 @@ def evaluate_inner(case):
         mlist = sorted(members)
         edges = [(a, b) for b in members for a in req[b]]
         tag = "step %d %s on members %s edges %s" % (step, op, mlist, sorted(edges))
+        if op[0] == 'query':
+            with quiet():
+                j = jobs[mlist[op[1] % len(mlist)]]
+                sched.successors_downstream(j)
+                sched.predecessors_upstream(j)
+                list(sched.exit_jobs())
+                list(sched.entry_jobs())
+            continue
         if op[0] == 'addreq':
             a, b = sorted((mlist[op[1] % len(mlist)], mlist[op[2] % len(mlist)]))
             if a == b:
@@ -263,6 +274,9 @@ def _enum(n, chunk, nchunks):
             yield dict(base, program=[['bypass', x]])
             for y in range(n - 1):
                 yield dict(base, program=[['bypass', x], ['bypass', y], ['addreq', 0, 1]])
+                # a query, a surgery, then a surgery that walks the graph from a start job
+                yield dict(base, program=[['query', y], ['bypass', x],
+                                          ['between', [y], [], True, True]])
         for keep in range(1 << n):
             yield dict(base, program=[['keep', keep]])
         for s in subsets:
